@@ -183,23 +183,65 @@ def norm(c, s):
     return ser(canon(lifted_graph_from_tucan(c, s)))
 
 
+class RefSentence:
+    pass
+
+
+def ref_spelling(mol):
+    """A valid spelling of the abstract molecule written WITHOUT the library: atoms in blocks of
+    increasing atomic number (stable), Hill formula, tuples a<b ascending, one block per labelled atom."""
+    from ref.elements import hill_formula
+    order = sorted(range(mol.n), key=lambda a: Z_OF[mol.elements[a]])
+    idx = {a: i + 1 for i, a in enumerate(order)}
+    d = RefSentence()
+    counts = {}
+    for e in mol.elements:
+        counts[e] = counts.get(e, 0) + 1
+    hf = hill_formula(mol.elements)
+    # formula as (symbol, count) in Hill order
+    syms = []
+    if "C" in counts:
+        syms.append("C")
+        if "H" in counts:
+            syms.append("H")
+        syms += sorted(k for k in counts if k not in ("C", "H"))
+    else:
+        syms = sorted(counts)
+    d.formula = [(k, counts[k]) for k in syms]
+    d.tuples = sorted(tuple(sorted((idx[a], idx[b]))) for (a, b) in mol.bonds)
+    d.blocks = []
+    for a in order:
+        props = []
+        if mol.mass[a] is not None:
+            props.append(("mass", mol.mass[a]))
+        if mol.rad[a] is not None:
+            props.append(("rad", mol.rad[a]))
+        if props:
+            d.blocks.append((idx[a], props))
+    assert render(d.formula, [], []).startswith(hf)
+    return d
+
+
 def c11(**p):
     def body(c):
-        from ref.tucan_ref import parse
         mol = dom(c, p)
-        s0 = ser(canon(graph_of(mol.listing())))
-        d = parse(s0, term_of_char, ge) if has_ph(s0) else parse(s0)
+        d = ref_spelling(mol)
+        s0 = render(d.formula, d.tuples, d.blocks)          # a valid spelling, independent of the serializer
         tuples, blocks, info = respell(c, d, p.get("kinds", KINDS))
         s1 = render(d.formula, tuples, blocks)
         c.note("mol", mol.describe())
-        c.note("canonical", s0)
+        c.note("spelling", s0)
         c.note("respelling", info)
         c.note("respelled", s1)
         n0 = norm(c, s0)
         n1 = norm(c, s1)
+        c.note("norm", n0)
         c.note("norm_respelled", n1)
         c.oblige("respelling-normalises-to-the-same-string", str_eq(n1, n0))
-        c.oblige("normalisation-idempotent", str_eq(norm(c, n1), n1))
+        c.oblige("normalisation-idempotent", str_eq(norm(c, n0), n0))
+        # the library's own rendering of the molecule is one more valid spelling
+        s2 = ser(canon(graph_of(mol.listing())))
+        c.oblige("pipeline-string-is-the-normal-form", str_eq(s2, n0))
     return body
 
 
